@@ -190,8 +190,8 @@ def suspect(c):
         return None
     if req.startswith("value "):
         t = req.split()
-        if t[1] in ("un", "d1", "d2", "d18") and re.fullmatch(rb"\s*[+-]?\d*\.\s*", inp) and t[1] == "un": return "F51"
-        if t[1] in ("ipp4", "ipp6", "ipp") and int(t[2], 16) & 2 and b"/" not in inp: return "F59"
+        if t[1] == "un" and re.fullmatch(rb"\s*([+-]\d*|\d+)\.", inp): return "F51"
+        if t[1] in ("ipp4", "ipp6") and int(t[2], 16) & 2 and b"/" not in inp and inp.strip(): return "F59"
     return None
 
 
@@ -545,7 +545,7 @@ def run_api(cx):
                             G.case("xpath sfind %s" % hexs(e), "lys_find_xpath", "micro:xpath", e, e))
                   if True), "micro-xpath3")
     api.feed(G.path_micro(L if thorough else L - 1), "micro-path")
-    api.feed(G.fragment_micro(L if thorough else L - 1), "micro-fragments")
+    api.feed(G.fragment_micro(L), "micro-fragments")
     api.feed(G.lexical_micro(2, 3 if not thorough else 4), "micro-lexical")
     api.feed(G.utf8_micro(L), "micro-utf8")
     nums = list(dict.fromkeys(G.json_numbers(full=thorough)))
